@@ -132,6 +132,29 @@ fn balance_decode_invariant() {
 }
 
 
+/// C16 / C17: decoding a PaymentAmount from ANY 64-bit wire value never panics and is lossless (every i64, including
+/// i64::MIN, is a wire value; the constructors are stricter, the wire form is not)
+mod i64de {
+    use ::serde::de::{Deserializer, Visitor};
+    use ::serde::forward_to_deserialize_any;
+    pub struct I64De(pub i64);
+    impl<'de> Deserializer<'de> for I64De {
+        type Error = super::u64de::HErr;
+        fn deserialize_any<V: Visitor<'de>>(self, v: V) -> Result<V::Value, Self::Error> { v.visit_i64(self.0) }
+        fn deserialize_newtype_struct<V: Visitor<'de>>(self, _n: &'static str, v: V) -> Result<V::Value, Self::Error> { v.visit_newtype_struct(self) }
+        forward_to_deserialize_any! { bool i8 i16 i32 i64 i128 u8 u16 u32 u64 u128 f32 f64 char str string bytes byte_buf option unit unit_struct seq tuple tuple_struct map struct enum identifier ignored_any }
+    }
+}
+#[kani::proof]
+fn amount_decode_total() {
+    use ::serde::Deserialize;
+    let v: i64 = kani::any();
+    match crate::PaymentAmount::deserialize(i64de::I64De(v)) {
+        Ok(a) => { assert!(a.to_i64() == v); let _ = a.to_scalar(); }
+        Err(_) => {}
+    }
+}
+
 // ---- C15 / C16: the text form of a channel id.  base64 is replaced by recording stubs (its contract - decode inverts
 // encode - is the assumption): `from_str` accepts exactly the strings whose decoding has 32 bytes, returns exactly those
 // bytes, and returns an error (never panics) for every other decoding result, of any length up to 40.
